@@ -379,6 +379,9 @@ def run(ctx):
     ]
     for f in sorted((VERIF / "corpus" / "C13").glob("*.json")):
         c = json.loads(f.read_text())
+        if "tree_ops" in c:
+            tree_case(ctx, c["programs"], label=f.name, script=c["tree_ops"])
+            continue
         one_case(ctx, c["programs"], label=f.name, script=c.get("script"))
     for _ in range(ctx.n(140, 2500)):
         progs = [gen_comp.gen_program(ctx.rng, allow_pow=False, allow_array=False), gen_comp.gen_program(ctx.rng, allow_pow=False, allow_array=False)]
@@ -386,6 +389,11 @@ def run(ctx):
         if ctx.rng.random() < 0.3:
             failed_modification(ctx, progs[0])
     same_named_classes(ctx)
+    for _ in range(ctx.n(40, 900)):  # tree refinement: the Lean model holds and edits the compositions
+        tree_case(ctx, [gen_comp.gen_program(ctx.rng, allow_pow=False, allow_array=False), gen_comp.gen_program(ctx.rng, allow_pow=False, allow_array=False)])
+    for _ in range(ctx.n(40, 600)):  # the recursion cache as a state machine with exceptions
+        reccache_case(ctx)
+    reccache_process_wide(ctx)
 
 
 class Unresolvable:
@@ -465,10 +473,441 @@ def same_named_classes(ctx):
                      case, {"got": str(got)[:300], "want": names})
 
 
+# ---------------------------------------------------------------------------------------------
+# tree refinement (lean/AFModel/FreezeTree.lean): the Lean model holds the compositions themselves,
+# edits them, and computes the answers; the real answers are compared with the Lean-computed ones
+
+TREE_KINDS = ["count", "paths", "pathIds", "uniquePaths", "ids", "inst"]
+
+
+def tree_objects(root):
+    """[(path, object)] of every object the model addresses below `root`, or None if an object is reached twice"""
+    out, seen = [], set()
+
+    def go(o, path):
+        if id(o) in seen:
+            return False
+        seen.add(id(o))
+        out.append((path, o))
+        for k, v in o.__dict__.items():
+            if k != "id" and not k.startswith("_") and isinstance(v, AbstractPriorModel) and v is not o:
+                if not go(v, path + (k,)):
+                    return False
+        return True
+
+    return out if go(root, ()) else None
+
+
+def tree_battery(o, kinds, vec):
+    """the real answers, in the order asked"""
+    import extract_comp as X
+    out = []
+    for kd in kinds:
+        try:
+            if kd == "count":
+                r = o.prior_count
+            elif kd == "paths":
+                r = [list(map(str, p)) for p in o.paths]
+            elif kd == "pathIds":
+                r = [int(pr.id) for _, pr in o.path_priors_tuples]
+            elif kd == "uniquePaths":
+                r = [list(map(str, p)) for p in o.unique_prior_paths]
+            elif kd == "ids":
+                r = [int(pr.id) for pr in o.priors_ordered_by_id]
+            else:
+                try:
+                    r = X.canon_inst(X.inst_of(o.instance_from_vector(vec, ignore_prior_limits=True)))
+                except AssertionError as e:
+                    r = "wrong-length" if "Vector length" in str(e) else {"err": "AssertionError:" + str(e)[:80]}
+        except Exception as e:  # noqa
+            r = {"err": type(e).__name__ + ":" + str(e)[:80]}
+        out.append(r)
+    return out
+
+
+def tree_value(rng, spec, roots):
+    """the value a scripted assignment gives"""
+    import vlib
+    k = spec["v"]
+    if k == "prior":
+        return af.UniformPrior(0.0, 1.0)
+    if k == "const":
+        return float(spec["x"])
+    if k == "model":
+        return af.Model(vlib.CLASSES[spec["cls"]])
+    if k == "coll":
+        return af.Collection(inner=af.Model(vlib.P1), other=af.Model(vlib.P2))
+    if k == "share":  # a prior already in use somewhere (the same parameter at one more place)
+        r, path = spec["src"]
+        o = roots[r]
+        for name in path:
+            o = o.__dict__[name]
+        return o
+    raise ValueError(k)
+
+
+def tree_priors(root):
+    out = []
+    for path, o in tree_objects(root) or []:
+        for k, v in o.__dict__.items():
+            if not k.startswith("_") and isinstance(v, Prior):
+                out.append(list(path) + [k])
+    return out
+
+
+def tree_gen_op(rng, roots, objs):
+    """draw one operation for the current state"""
+    r = rng.randrange(len(roots))
+    paths = objs[r]
+    path, o = paths[0] if rng.random() < 0.4 else rng.choice(paths)
+    x = rng.random()
+    if x < 0.36:
+        kinds = rng.sample(TREE_KINDS, rng.randint(1, len(TREE_KINDS)))
+        return {"op": "query", "r": r, "path": list(path), "kinds": kinds, "short": rng.random() < 0.05}
+    if x < 0.48:
+        return {"op": "freeze", "r": r, "path": list(path)}
+    if x < 0.60:
+        return {"op": "unfreeze", "r": r, "path": list(path) if rng.random() < 0.25 else []}
+    if x < 0.85:
+        cands = [(p_, o_) for p_, o_ in paths if modifiable(o_)]
+        if not cands:
+            return None
+        path, o = rng.choice(cands)
+        if isinstance(o, Collection):
+            key = rng.choice(["added_0", "added_1", "z_b", "late"])
+            y = rng.random()
+            if y < 0.3:
+                spec = {"v": "prior"}
+            elif y < 0.45:
+                spec = {"v": "const", "x": round(rng.uniform(-5, 5), 3)}
+            elif y < 0.7:
+                spec = {"v": "model", "cls": rng.choice(["P1", "P2", "T2", "Nest"])}
+            elif y < 0.8:
+                spec = {"v": "coll"}
+            else:
+                pri = [(r2, pp) for r2 in range(len(roots)) for pp in tree_priors(roots[r2])]
+                spec = {"v": "share", "src": list(rng.choice(pri))} if pri else {"v": "prior"}
+            return {"op": "set", "r": r, "path": list(path), "key": key, "value": spec}
+        names = list(modifiable(o))
+        from autofit.mapper.prior.tuple_prior import TuplePrior
+        for a in o.constructor_argument_names:  # every member of a tuple argument, through the `name_i` form
+            tp = o.__dict__.get(a)
+            if isinstance(tp, TuplePrior):
+                names += [k_ for k_, v_ in tp.__dict__.items() if k_.startswith(a + "_") and isinstance(v_, (Prior, float)) and k_ not in names]
+        name = rng.choice(names)
+        holder = o.__dict__ if name in o.__dict__ else o.__dict__[name.rsplit("_", 1)[0]].__dict__
+        cur = holder[name]
+        y = rng.random()
+        if isinstance(cur, Prior) and y < 0.6:
+            spec = {"v": "const", "x": round(rng.uniform(-5, 5), 3)}
+        elif y < 0.85:
+            spec = {"v": "prior"}
+        else:
+            pri = [(r2, pp) for r2 in range(len(roots)) for pp in tree_priors(roots[r2])]
+            spec = {"v": "share", "src": list(rng.choice(pri))} if pri else {"v": "prior"}
+        return {"op": "set", "r": r, "path": list(path), "key": name, "value": spec}
+    if x < 0.91:
+        cands = [(p_, o_) for p_, o_ in paths if isinstance(o_, Collection)
+                 and any(k in o_.__dict__ for k in ("added_0", "added_1", "z_b", "late"))]
+        if not cands:
+            return None
+        path, o = rng.choice(cands)
+        key = rng.choice([k for k in ("added_0", "added_1", "z_b", "late") if k in o.__dict__])
+        return {"op": "remove", "r": r, "path": list(path), "key": key}
+    if x < 0.95:
+        return {"op": "failing", "r": r, "path": list(path), "how": rng.randrange(2)}
+    return {"op": "copy", "r": r, "path": list(path), "how": rng.choice(["deepcopy", "copy", "pickle"])}
+
+
+def tree_case(ctx, progs, label="tree", script=None):
+    import pickle
+    import extract_comp as X
+    rng = ctx.rng
+    roots = []
+    try:
+        for prog in progs:
+            roots.append(gen_comp.run_program(prog)["root"])
+    except Exception as e:
+        ctx.hit("program-rejected:" + type(e).__name__)
+        return
+    objs = [tree_objects(r) for r in roots]
+    if any(o is None for o in objs) or len({id(o) for l in objs for _, o in l}) != sum(len(l) for l in objs):
+        ctx.hit("tree:aliased-objects-skipped")
+        return
+    wire_roots = [X.node_of(r) for r in roots]
+    loose = any(c01.has_loose(w) for w in wire_roots)
+    n_ops = len(script) if script is not None else rng.randint(12, 30)
+    ops, wire_ops, real, fresh, flags = [], [], [], [], []
+    for j in range(n_ops):
+        op = script[j] if script is not None else tree_gen_op(rng, roots, objs)
+        if op is None:
+            continue
+        r, path = op["r"], tuple(op["path"])
+        if r >= len(roots):
+            continue
+        here = dict(objs[r])
+        if path not in here:
+            continue
+        o = here[path]
+        kind = op["op"]
+        if kind == "query":
+            try:
+                twin = copy.deepcopy(o)
+                twin.unfreeze()
+            except Exception as e:  # noqa
+                ctx.hit("tree:twin-raised:" + type(e).__name__)
+                continue
+            if "vec" not in op:
+                try:
+                    op["vec"] = c01.test_vector(rng, twin)
+                except Exception:
+                    op["vec"] = []
+                if op.get("short"):
+                    op["vec"] = op["vec"][:-1] if op["vec"] else [0.5]
+            real.append(tree_battery(o, op["kinds"], op["vec"]))
+            fresh.append(tree_battery(twin, op["kinds"], op["vec"]))
+            wire_ops.append(["query", r, list(path), op["kinds"], [common_f2h(x) for x in op["vec"]]])
+        elif kind in ("freeze", "unfreeze"):
+            getattr(o, kind)()
+            real.append("done"); fresh.append(None)
+            wire_ops.append([kind, r, list(path)])
+        elif kind == "set":
+            try:
+                value = tree_value(rng, op["value"], roots)
+            except Exception:
+                continue
+            wire_value = X.node_of(value)  # what is assigned, not what the object then holds
+            try:
+                setattr(o, op["key"], value)
+                real.append("done")
+                # oracle: a change made on an unfrozen model is reflected - the object now holds the value at that name
+                held = o.__dict__.get(op["key"], None)
+                if held is None and "_" in op["key"]:
+                    held = getattr(o.__dict__.get(op["key"].split("_")[0]), "__dict__", {}).get(op["key"])
+                if not (held is value or (isinstance(value, float) and held == value)):
+                    ctx.fail("C13-change-not-reflected", "an accepted assignment is not reflected: the model does not hold the assigned value under that name",
+                             {"programs": progs, "tree_ops": ops + [op], "label": label}, {"key": op["key"], "held": str(held)[:80]})
+            except AssertionError:
+                real.append("rejected")
+            fresh.append(None)
+            wire_ops.append(["set", r, list(path), op["key"], wire_value])
+        elif kind == "remove":
+            item = o.__dict__.get(op["key"])
+            try:
+                same = sum(1 for k_, v_ in o.__dict__.items() if not k_.startswith("_") and k_ not in X.INERT and bool(v_ == item))
+            except Exception:
+                same = 0
+            if item is None or same != 1 or not isinstance(item, (Prior, Model)):
+                # (`remove` compares the item with every entry of `__dict__`: a float item also deletes an equal
+                # counter, a Collection item raises TypeError from `Collection.__eq__(item, False)`; not this property)
+                ctx.hit("tree:remove-skipped")
+                continue
+            try:
+                o.remove(item)
+                real.append("done")
+            except AssertionError:
+                real.append("rejected")
+            except Exception as e:  # noqa
+                ctx.hit("tree:remove-raised:" + type(e).__name__)
+                continue
+            fresh.append(None)
+            wire_ops.append(["remove", r, list(path), op["key"]])
+        elif kind == "failing":
+            try:
+                if op["how"] == 0:
+                    o.has_instance("not a type")
+                else:
+                    o.attribute_tuples_with_type(["not", "a", "type"])
+                real.append("no-failure")
+            except Exception:
+                real.append("done")
+            fresh.append(None)
+            wire_ops.append(["failing", r, list(path)])
+        elif kind == "copy":
+            try:
+                if op["how"] == "deepcopy":
+                    c = copy.deepcopy(o)
+                elif op["how"] == "copy":
+                    c = o.copy()
+                else:
+                    c = pickle.loads(pickle.dumps(o))
+            except Exception as e:  # noqa
+                ctx.hit("tree:copy-raised:" + type(e).__name__)
+                continue
+            roots.append(c)
+            objs.append(None)
+            real.append("done"); fresh.append(None)
+            wire_ops.append(["copy", r, list(path)])
+            r = len(roots) - 1
+            o = c
+        ops.append(op)
+        flags.append(bool(getattr(o, "_is_frozen", False)))
+        objs[r] = tree_objects(roots[r])
+        if objs[r] is None or len({id(x) for l in objs for _, x in l}) != sum(len(l) for l in objs):
+            ctx.hit("tree:aliased-after-op")  # (a shared prior is a leaf; objects are never shared by these ops)
+            break
+
+    case = {"programs": progs, "tree_ops": ops, "label": label}
+    ans = ctx.lean.ask({"p": "C13", "mode": "tree", "roots": wire_roots, "ops": wire_ops})
+    if "driver_error" in ans:
+        ctx.disagree("driver", case, None, ans)
+        return
+    kinds = [o_["op"] for o_ in ops]
+    nontrivial = "freeze" in kinds and any(k in ("set", "remove") for k in kinds[kinds.index("freeze"):]) and "query" in kinds
+    ctx.case({"roots": wire_roots, "ops": wire_ops}, nontrivial=nontrivial,
+             sample={"tree": True, "objects": [len(l or []) for l in objs], "ops": [[o_["op"], o_["r"], o_["path"]] + ([o_["key"], o_["value"]["v"]] if o_["op"] == "set" else []) for o_ in ops[:12]]})
+    unsafe_seen = False
+    for j, (op, re_, fr, mo, safe, mfl, rfl) in enumerate(zip(ops, real, fresh, ans["outs"], ans["safe"], ans["frozen"], flags)):
+        kind = op["op"]
+        ctx.hit("tree-op:" + kind + (":" + op["value"]["v"] if kind == "set" else ""))
+        if kind == "unfreeze" and not safe:
+            unsafe_seen = True
+            ctx.hit("tree:unsafe-unfreeze")
+        if mfl != rfl:
+            ctx.disagree("C13.tree-frozen-flag", dict(case, at=j), rfl, mfl)
+        if kind == "query":
+            for kd, a_real, a_fresh, m in zip(op["kinds"], re_, fr, mo):
+                bad_real = isinstance(a_real, dict) and "err" in a_real
+                bad_fresh = isinstance(a_fresh, dict) and "err" in a_fresh
+                # ---- oracle: the real answer is that of an uncached rebuild
+                if kd == "inst" and isinstance(a_real, dict) and isinstance(a_fresh, dict) and not bad_real and not bad_fresh:
+                    stale = X.inst_diff(a_real, a_fresh, 0) is not None
+                else:
+                    stale = (a_real != a_fresh) and not (bad_real and bad_fresh)
+                if stale:
+                    ctx.hit("tree:stale-answer")
+                    ctx.fail("C13-child-unfreeze" if unsafe_seen else "C13-stale-answer",
+                             "a model answers from an outdated composition (cached answer differs from an uncached rebuild)",
+                             dict(case, at=j), {"question": kd, "answer": str(a_real)[:200], "fresh": str(a_fresh)[:200]})
+                    continue
+                if unsafe_seen:
+                    continue  # outside the guard of the theorem (known finding); the model is not compared there
+                # ---- tie: the real answer is the Lean-computed answer of the Lean-held composition
+                m_ans = m.get("answered") if isinstance(m, dict) else m
+                if kd != "inst" or a_real == "wrong-length" or m_ans == "wrong-length":
+                    if bad_real or a_real != m_ans:
+                        ctx.disagree("C13.tree-answer:" + kd, dict(case, at=j), a_real, m_ans)
+                else:
+                    mi = X.canon_inst(m_ans)
+                    if bad_real:
+                        if not c01.contains_missing_or_domain(mi):
+                            ctx.disagree("C13.tree-answer:inst", dict(case, at=j), a_real, mi)
+                    else:
+                        d = X.inst_diff(a_real, mi, 4 if loose else 0)
+                        if d and not c01.arith_domain(a_real, mi):
+                            ctx.disagree("C13.tree-answer:inst", dict(case, at=j), {"diff_at": d[0], "impl": d[1]}, {"model": d[2]})
+        elif kind in ("set", "remove"):
+            m = mo[0] if mo else None
+            if m != re_:
+                if re_ == "done" and m == "rejected":
+                    ctx.fail("C13-frozen-accepts", "a frozen model accepted an assignment / a removal", dict(case, at=j), {"path": op["path"]})
+                else:
+                    ctx.disagree("C13.tree-modify", dict(case, at=j), re_, m)
+        elif kind == "copy":
+            if (mo[0] if mo else None) != "done":
+                ctx.disagree("C13.tree-copy", dict(case, at=j), re_, mo)
+
+
+def common_f2h(x):
+    from common import f2h
+    return f2h(x)
+
+
+# ---------------------------------------------------------------------------------------------
+# the process-wide recursion cache (lean/AFModel/RecCache.lean)
+
+
+def reccache_gen(rng, depth=0, anc=()):
+    id_ = rng.choice(anc) if anc and rng.random() < 0.2 else rng.randrange(1, 9)
+    n = {"id": id_, "raises": rng.random() < (0.12 if depth else 0.05), "children": []}
+    if depth < 3:
+        for _ in range(rng.randint(0, 3)):
+            n["children"].append(reccache_gen(rng, depth + 1, anc + (id_,)))
+    return n
+
+
+def reccache_case(ctx, calls=None, label="reccache"):
+    """walks that recurse, meet cycles and raise, through the library's `DynamicRecursionCache` wrapper"""
+    from autofit.mapper.prior_model.recursion import DynamicRecursionCache, RecursionPromise
+    rng = ctx.rng
+    if calls is None:
+        calls = [reccache_gen(rng) for _ in range(rng.randint(1, 5))]
+
+    class Item:
+        def __init__(self, tag):
+            self.tag = tag
+
+    items = {i: Item(i) for i in range(0, 10)}
+    tag_of = {id(o): t for t, o in items.items()}
+    rc = DynamicRecursionCache()
+    trace = []
+
+    @rc
+    def walk(item, spec):
+        trace.append(item.tag)
+        got = [walk(items[ch["id"]], ch) for ch in spec["children"]]
+        if spec["raises"]:
+            raise RuntimeError("scripted failure")
+        return [item.tag, len(got)]
+
+    case = {"calls": calls, "label": label}
+    outs, left = [], []
+    for c in calls:
+        try:
+            r = walk(items[c["id"]], c)
+            outs.append("promise" if isinstance(r, RecursionPromise) else "ok")
+        except RuntimeError:
+            outs.append("raised")
+        left.append(sorted(tag_of.get(k, -1) for k in rc.cache))
+    ans = ctx.lean.ask({"p": "C13", "mode": "reccache", "calls": calls})
+    if "driver_error" in ans:
+        ctx.disagree("driver", case, None, ans)
+        return
+    size = lambda n: 1 + sum(size(ch) for ch in n["children"])  # noqa
+    ctx.case({"calls": calls}, nontrivial="raised" in outs and sum(size(c) for c in calls) >= 4,
+             sample={"reccache": True, "outs": outs, "trace": trace[:20]})
+    ctx.hit("reccache:" + "+".join(sorted(set(outs))))
+    # ---- oracle: no entry of a finished call is left; a top-level call is never answered by a placeholder
+    if any(left) or "promise" in outs:
+        ctx.fail("C13-recursion-cache-entry-left", "the process-wide recursion cache keeps the entry of a finished (failed) call: a later walk of that object is answered with a placeholder",
+                 case, {"left": left, "outs": outs})
+    # ---- tie
+    if outs != ans["outs"] or left[-1] != sorted(ans["cache"]) or trace != ans["trace"]:
+        ctx.disagree("C13.reccache", case, {"outs": outs, "cache": left[-1], "trace": trace}, ans)
+
+
+def reccache_process_wide(ctx):
+    """the library's own instances (closures of the decorated functions) hold nothing between calls"""
+    import autofit.mapper.model as mm
+    import autofit.mapper.prior_model.abstract as ab
+    from autofit.mapper.prior_model.recursion import DynamicRecursionCache
+    found = 0
+    for mod in (mm, ab):
+        for name, f in vars(mod).items():
+            for cell in (getattr(f, "__closure__", None) or ()):
+                try:
+                    v = cell.cell_contents
+                except ValueError:
+                    continue
+                if isinstance(v, DynamicRecursionCache):
+                    found += 1
+                    if v.cache:
+                        ctx.fail("C13-recursion-cache-entry-left", "the process-wide recursion cache holds an entry although no walk is in progress",
+                                 {"label": "reccache-process-wide", "function": name}, {"entries": len(v.cache)})
+    ctx.hit("reccache:process-wide-instances:%d" % found)
+
+
 def replay(ctx, payload):
     case = payload.get("case") or payload.get("disagreements", [{}])[0].get("case")
     if case.get("label") == "same-named-classes":
         return same_named_classes(ctx)
     if case.get("label") == "failed-modification":
         return failed_modification(ctx, case["programs"][0])
+    if case.get("label") == "reccache-process-wide":
+        run(ctx)
+        return
+    if "calls" in case:
+        return reccache_case(ctx, calls=case["calls"], label="replay")
+    if "tree_ops" in case:
+        return tree_case(ctx, case["programs"], label="replay", script=case["tree_ops"])
     one_case(ctx, case["programs"], label="replay", script={"setup": case["setup"], "ops": case["ops"]})
